@@ -228,15 +228,19 @@ class Settings:
     whitespace: object = 'UNSET'
     trace: bool | None = None
     colorize: bool | None = None
+    extra: dict = field(default_factory=dict)     # further settings, passed through as they are
 
     def kwargs(self):
         d = {}
         for k, v in self.__dict__.items():
+            if k == 'extra':
+                continue
             if k == 'whitespace':
                 if v != 'UNSET':
                     d[k] = v
             elif v is not None:
                 d[k] = v
+        d.update(self.extra)
         return d
 
 
